@@ -11,8 +11,9 @@ class ModuleProxy(types.ModuleType):
     """Stands in for a library module: modelled names are overridden, everything else falls
     through to the real module (and is recorded, so the evidence can list un-modelled uses)."""
 
-    def __init__(self, real, overrides, fallthrough_log=None):
+    def __init__(self, real, overrides, fallthrough_log=None, wrap=None):
         super().__init__(real.__name__)
+        object.__setattr__(self, "_wrap", wrap)
         object.__setattr__(self, "_real", real)
         object.__setattr__(self, "_overrides", dict(overrides))
         object.__setattr__(self, "_log", fallthrough_log if fallthrough_log is not None else set())
@@ -25,6 +26,9 @@ class ModuleProxy(types.ModuleType):
         val = getattr(real, name)
         if not name.startswith("__"):
             object.__getattribute__(self, "_log").add(f"{real.__name__}.{name}")
+            wrap = object.__getattribute__(self, "_wrap")
+            if wrap is not None:
+                return wrap(name, val)
         return val
 
 
